@@ -412,7 +412,7 @@ def finish(run, level='model_checking', rule='', exhaustive=False, extra_cov=Non
     cov = {
         'states': run.states, 'transitions': run.transitions,
         'traces_validated_against_impl': run.traces,
-        'samples': run.samples[:6] or ['(none)'],
+        'samples': small_samples(run.samples),
         'evaluations': max(run.evaluations, run.observations),
         'distinct_nontrivial': len(run.signatures),
         'rule': rule,
@@ -437,6 +437,31 @@ def finish(run, level='model_checking', rule='', exhaustive=False, extra_cov=Non
         run.prop, run.tier, run.observations, run.traces, run.states, len(run.violations),
         sum(run.known_seen.values()), time.time() - run.t0))
     return rc
+
+
+def shrink(x, budget=40):
+    """a sample written out for a reader: long lists / strings are cut (the evidence file stays small)"""
+    if isinstance(x, dict):
+        return {k: shrink(v, budget) for k, v in list(x.items())[:60]}
+    if isinstance(x, (list, tuple)):
+        out = [shrink(v, budget) for v in x[:budget]]
+        if len(x) > budget:
+            out.append('... %d more' % (len(x) - budget))
+        return out
+    if isinstance(x, str) and len(x) > 400:
+        return x[:400] + '... (%d characters)' % len(x)
+    return x
+
+
+def small_samples(samples):
+    out = []
+    for smp in samples:
+        smp = shrink(smp)
+        if len(json.dumps(smp)) <= 20000:
+            out.append(smp)
+        if len(out) >= 6:
+            break
+    return out or ['(none)']
 
 
 def summary(o):
